@@ -9,6 +9,9 @@
 //   joint type ax ay az px py pz damping stiffness armature limited lo hi springref      (of the last body)
 //   geom type s0 s1 s2 px py pz qw qx qy qz condim f0 f1 f2 margin gap density            (of the last body)
 //   wgeom ...same as geom...                                                               (on the world body)
+//   (joint lines may continue with: frictionloss  solref_limit[2] solimp_limit[5]  solref_friction[2] solimp_friction[5];
+//    geom lines with: solref[2] solimp[5])
+//   eq 0 j1 j2 c0 c1 solref[2] solimp[5]          joint equality (j2 = -1: none);   eq 1 body ax ay az solref[2] solimp[5]   connect to the world
 //   site name px py pz                            (of the last body)      wsite name px py pz   (on the world body)
 //   tendon stiffness damping sl0 sl1 nwrap (kind ref coef)*     kind 0: joint j<ref> with coef; kind 1: site named s<ref>
 //   act jointindex kind gear kp                   (kind 0 motor, 1 position)
@@ -52,6 +55,11 @@ static void read_geom(mjsGeom* g, char* p) {
   g->margin = strtod(p, &p);
   g->gap = strtod(p, &p);
   g->density = strtod(p, &p);
+  char* q = p; while (*q == ' ') q++;
+  if (*q && *q != '\n') {
+    for (int i = 0; i < mjNREF; i++) g->solref[i] = strtod(p, &p);
+    for (int i = 0; i < mjNIMP; i++) g->solimp[i] = strtod(p, &p);
+  }
 }
 
 static void dump_model(const mjModel* m) {
@@ -81,7 +89,11 @@ static void dump_model(const mjModel* m) {
   pa("actuator_gear", m->actuator_gear, 6 * m->nu, 1); pi("actuator_trnid", m->actuator_trnid, 2 * m->nu, 1);
   pa("site_pos", m->site_pos, 3 * m->nsite, 1); pi("site_bodyid", m->site_bodyid, m->nsite, 1);
   pa("tendon_stiffness", m->tendon_stiffness, m->ntendon, 1); pa("tendon_damping", m->tendon_damping, m->ntendon, 1);
-  pa("tendon_lengthspring", m->tendon_lengthspring, 2 * m->ntendon, 0);
+  pa("tendon_lengthspring", m->tendon_lengthspring, 2 * m->ntendon, 1);
+  pa("jnt_solref", m->jnt_solref, mjNREF * m->njnt, 1); pa("jnt_solimp", m->jnt_solimp, mjNIMP * m->njnt, 1);
+  pa("dof_solref", m->dof_solref, mjNREF * m->nv, 1); pa("dof_solimp", m->dof_solimp, mjNIMP * m->nv, 1);
+  pa("eq_solref", m->eq_solref, mjNREF * m->neq, 1); pa("eq_solimp", m->eq_solimp, mjNIMP * m->neq, 1);
+  pa("eq_data", m->eq_data, mjNEQDATA * m->neq, 0);
   printf("},");
 }
 
@@ -117,6 +129,7 @@ static void dump_state(const mjModel* m, mjData* d, const mjtNum* qpos, const mj
   pi("efc_type", d->efc_type, nefc, 1); pi("efc_id", d->efc_id, nefc, 1);
   pa("efc_aref", d->efc_aref, nefc, 1); pa("efc_D", d->efc_D, nefc, 1); pa("efc_pos", d->efc_pos, nefc, 1);
   pa("efc_force", d->efc_force, nefc, 1);
+  pa("efc_KBIP", d->efc_KBIP, 4 * nefc, 1); pa("efc_vel", d->efc_vel, nefc, 1); pa("efc_margin", d->efc_margin, nefc, 1);
   printf("\"solver_niter\":%d,", d->solver_niter[0]);
   // one step from the same state
   mj_resetData(m, d);
@@ -166,6 +179,14 @@ int main(void) {
       j->limited = lim ? mjLIMITED_TRUE : mjLIMITED_FALSE;
       j->range[0] = strtod(p, &p); j->range[1] = strtod(p, &p);
       j->springref = strtod(p, &p);
+      { char* q = p; while (*q == ' ') q++;
+        if (*q && *q != '\n') {
+          j->frictionloss = strtod(p, &p);
+          for (int i = 0; i < mjNREF; i++) j->solref_limit[i] = strtod(p, &p);
+          for (int i = 0; i < mjNIMP; i++) j->solimp_limit[i] = strtod(p, &p);
+          for (int i = 0; i < mjNREF; i++) j->solref_friction[i] = strtod(p, &p);
+          for (int i = 0; i < mjNIMP; i++) j->solimp_friction[i] = strtod(p, &p);
+        } }
     } else if (!strcmp(kw, "geom")) {
       read_geom(mjs_addGeom(cur, NULL), p);
     } else if (!strcmp(kw, "wgeom")) {
@@ -185,6 +206,25 @@ int main(void) {
         char nm[32]; snprintf(nm, sizeof(nm), kind == 0 ? "j%d" : "s%d", ref);
         if (kind == 0) mjs_wrapJoint(t, nm, coef); else mjs_wrapSite(t, nm);
       }
+    } else if (!strcmp(kw, "eq")) {
+      int kind = (int)strtol(p, &p, 10);
+      mjsEquality* e = mjs_addEquality(s, NULL);
+      char nm[32];
+      if (kind == 0) {
+        int j1 = (int)strtol(p, &p, 10), j2 = (int)strtol(p, &p, 10);
+        e->type = mjEQ_JOINT; e->objtype = mjOBJ_JOINT;
+        snprintf(nm, sizeof(nm), "j%d", j1); mjs_setString(e->name1, nm);
+        if (j2 >= 0) { snprintf(nm, sizeof(nm), "j%d", j2); mjs_setString(e->name2, nm); }
+        for (int i = 0; i < 5; i++) e->data[i] = 0;
+        e->data[0] = strtod(p, &p); e->data[1] = strtod(p, &p);
+      } else {
+        int b = (int)strtol(p, &p, 10);
+        e->type = mjEQ_CONNECT; e->objtype = mjOBJ_BODY;
+        snprintf(nm, sizeof(nm), "b%d", b); mjs_setString(e->name1, nm);
+        for (int i = 0; i < 3; i++) e->data[i] = strtod(p, &p);
+      }
+      for (int i = 0; i < mjNREF; i++) e->solref[i] = strtod(p, &p);
+      for (int i = 0; i < mjNIMP; i++) e->solimp[i] = strtod(p, &p);
     } else if (!strcmp(kw, "act")) {
       int ji = (int)strtol(p, &p, 10); int kind = (int)strtol(p, &p, 10);
       double gear = strtod(p, &p), kp = strtod(p, &p);
